@@ -23,6 +23,14 @@ CLAIMED = {
         technique="symbolic execution of the real functions + z3 VCs against a spec table",
         note=LEVEL_NOTE_MODELS,
     ),
+    "C04": dict(
+        text="Proof relative to the library models and an abstract group model (rows, nn_count, nn_sum, ... uninterpreted): for every aggregate x column type x backend x "
+        "context (grouped/ungrouped summarize, window use with partition_by) x filter=, the real ColFn tree built by the real ColFn.__init__ is compiled by the real "
+        "compile_col_expr of both backends and z3 discharges den == documented null-ignoring aggregate. One-row-per-group (A3) is a library axiom here, not proved.",
+        design_ref="DESIGN.md §5.4",
+        technique="symbolic execution of the real functions + z3 VCs over an abstract group model",
+        note=LEVEL_NOTE_MODELS + "; group-level functions are uninterpreted (both engines assumed to compute the same sums/extrema)",
+    ),
 }
 
 NOT_YET = "check not built yet (engine under construction); will be claimed as soon as its obligations discharge"
